@@ -296,6 +296,9 @@ def hashablize(obj):
             return tuple((k, hashablize(v)) for (k, v) in sorted(obj.items()))
         elif isinstance(obj, np.ndarray):
             return tuple(obj.tolist())
+        elif isinstance(obj, set):
+            # The iteration order of a set depends on PYTHONHASHSEED
+            return tuple(sorted((hashablize(o) for o in obj), key=repr))
         elif hasattr(obj, "__iter__"):
             return tuple(hashablize(o) for o in obj)
         else:
